@@ -1,4 +1,5 @@
 import Qryn.Prof.Diff
+import Qryn.Prof.TypeSel
 import Qryn.Base.Bytes
 import Driver.C16
 /-! Line protocol for the DIFF view of the C16 model.
@@ -6,7 +7,8 @@ import Driver.C16
         fns = `-` or comma list of `id:hexname` in table order, row = `p,f,n,self,total` (as for `c16flame`);
         each side goes through `mergeTrieCap`/`mergeNameTab` with the caps of the source, then `renderDiff`
     `c16names cap fns`                    → the name table `MergeTrie` builds under the name cap `cap`: `id:hexname,…`
-    `c16capflame cap row*`                → `tree;levels;total` like `c16flame` but with the node cap `cap` -/
+    `c16capflame cap row*`                → `tree;levels;total` like `c16flame` but with the node cap `cap`
+    `c16first name names`                 → position of the first sample type called `name` (hex words, comma list) -/
 namespace Driver.C16Diff
 open Qryn.Prof Driver.C16
 
@@ -52,5 +54,7 @@ def handle : List String → Option String
       | [] => []
       | _ :: rest => showLevel [0, rootTotal T, 0, 0] :: rest.map (fun l => showLevel (levelValues [] l))
     pure (join " " tree ++ ";" ++ join " " levels ++ ";" ++ toString (rootTotal T))
+  | ["c16first", name, names] => do
+    pure (toString (firstIdx (names.splitOn ",") name))
   | _ => none
 end Driver.C16Diff
